@@ -19,10 +19,10 @@ import (
 // For numbers the by-value result is also compared with plain Go integer comparison.
 
 type v25val struct {
-	v    Value
-	raw  string
-	kind int
-	n    int // the number (kind v25kNum)
+	v      Value
+	raw    string
+	kind   int
+	n      int // the number (kind v25kNum)
 	digits int // its number of digits (VerifC25RawNum)
 }
 
@@ -120,10 +120,14 @@ func v25check(gen func(tag string, like *v25val) v25val, nums bool) {
 	model, hasModel := false, false
 	// the values are drawn before the shape and the operators, so that the (expensive) packing
 	// is shared by the paths that differ only in the expression
-	lists := rt.Pick("lists", 2) == 1 // shapes with two literals
-	f := gen("f", nil)
+	lists := !(nums && !rt.Thorough()) && rt.Pick("lists", 2) == 1 // shapes with two literals
 	c := gen("c", nil)
-	var d v25val
+	var f, d v25val
+	if nums && (lists || !rt.Thorough()) {
+		f = gen("f", &c) // numbers, quick and every list or range: all of one sign and digit count
+	} else {
+		f = gen("f", nil)
+	}
 	if lists {
 		if rt.Thorough() {
 			d = gen("d", nil)
@@ -131,15 +135,16 @@ func v25check(gen func(tag string, like *v25val) v25val, nums bool) {
 			d = gen("d", &c) // quick: the second literal is of the kind (numbers: sign and digit count) of the first
 		}
 	}
-	g, e := f, c // quick: the second comparison / the branches use f and c again
-	if !lists && rt.Thorough() && rt.Pick("more", 2) == 1 {
-		g, e = gen("g", nil), gen("e", nil)
-	}
+	g, e := f, c // the second comparison / the branches of ?: use f and c again
 	var shape int
 	if lists {
 		shape = 3 + rt.Pick("shape", 2)
 	} else {
-		shape = []int{0, 1, 2, 5, 6, 7}[rt.Pick("shape", 6)]
+		shapes := []int{0, 1, 2, 5, 6, 7}
+		if nums && !rt.Thorough() {
+			shapes = []int{0} // the other shapes evaluate the same comparisons
+		}
+		shape = shapes[rt.Pick("shape", len(shapes))]
 	}
 	switch shape {
 	case 0, 1, 2: // f op c, c op f, f op g
@@ -185,7 +190,7 @@ func v25check(gen func(tag string, like *v25val) v25val, nums bool) {
 			return &Unary{Tok: tok.Not, E: &Unary{Tok: tok.LParen, E: &Binary{Lhs: ctx.field("f", f), Tok: t, Rhs: v25lit(c)}}}
 		}
 		model, hasModel = !v25model(t, f.n, c.n), nums
-	case 6: // f op c and/or g op d (quick: g, d are f, c again and the second operator is is or <)
+	case 6: // f op c and/or g op d (g, d are f, c again; quick: the second operator is is or <)
 		t1 := v25cmp[rt.Pick("tok", 6)]
 		t2 := []tok.Token{tok.Is, tok.Lt}[rt.Pick("tok2", 2)]
 		if rt.Thorough() {
@@ -205,6 +210,9 @@ func v25check(gen func(tag string, like *v25val) v25val, nums bool) {
 		model, hasModel = (or && (m1 || m2)) || (!or && m1 && m2), nums
 	case 7: // f op c ? g : d (a value of any kind comes back through Unpack)
 		t := v25cmp[rt.Pick("tok", 6)]
+		if rt.Thorough() && !nums {
+			g, e = gen("g", &f), gen("e", &c) // other values of the same kinds
+		}
 		cmpPair(t, f, c)
 		mk = func() Expr {
 			return &Trinary{Cond: &Binary{Lhs: ctx.field("f", f), Tok: t, Rhs: v25lit(c)}, T: ctx.field("g", g), F: v25lit(e)}
@@ -276,7 +284,7 @@ func v25any(maxLen int) func(tag string, like *v25val) v25val {
 
 // C25 all kinds of values.
 //
-//symgo:harness prop=C25 tier=quick shards=4 tshards=16 timeout=300 ttimeout=1700 bounds=shapes:f_op_c,c_op_f,f_op_g_(is_isnt_<_<=_>_>=),f_[not]_in_(c,d),c_<(=)_f_<(=)_d_(InRange),not_(f_op_c),f_op_c_and|or_g_op_d,f_op_c_?_g_:_d_(quick:_g,d_are_f,c_again;_second_members_of_lists_and_ranges_of_the_kind_of_the_first);fields_and_literals_each:boolean|number_from_{0,-1,250}|string_of_0..1_(thorough_2)_bytes|date_or_timestamp_with_any_field_bits;no_order_comparison_of_""_with_a_non-string outside=symbolic_numbers_(VerifC25RawNum);Number?/String?/Date?_calls;_lower!_fields;objects
+//symgo:harness prop=C25 tier=quick shards=4 tshards=8 timeout=300 ttimeout=1700 bounds=shapes:f_op_c,c_op_f,f_op_g_(is_isnt_<_<=_>_>=),f_[not]_in_(c,d),c_<(=)_f_<(=)_d_(InRange),not_(f_op_c),f_op_c_and|or_f_op2_c_(quick_op2_is_or_<),f_op_c_?_f_:_c_(thorough_?_g_:_d_of_the_same_kinds);quick:_second_members_of_lists_and_ranges_of_the_kind_of_the_first;fields_and_literals_each:boolean|number_from_{0,-1,250}|string_of_0..1_(thorough_2)_bytes|date_or_timestamp_with_any_field_bits;no_order_comparison_of_""_with_a_non-string outside=symbolic_numbers_(VerifC25RawNum);Number?/String?/Date?_calls;_lower!_fields;objects
 func VerifC25Raw() {
 	maxLen := 1
 	if rt.Thorough() {
@@ -312,13 +320,14 @@ func v25num(digits []int) func(tag string, like *v25val) v25val {
 	}
 }
 
-// C25 numbers: every field and literal an integer of 0, 1 or 3 (thorough 0..6) digits, either sign.
+// C25 numbers: every field and literal a symbolic integer (small-int representation, packed by
+// the real code through dnum.FromInt).
 //
-//symgo:harness prop=C25 tier=quick arith=int shards=4 tshards=16 timeout=300 ttimeout=1700 qtimeout=20000 bounds=the_shapes_of_VerifC25Raw;fields_and_literals_each_any_integer_of_0,_1_or_3_(thorough_0..6)_digits,_either_sign_(quick:_second_member_of_a_list_or_range_has_the_sign_and_digit_count_of_the_first) outside=decimals_with_fractions;integers_of_more_digits
+//symgo:harness prop=C25 tier=quick arith=int shards=3 tshards=16 timeout=300 ttimeout=1700 qtimeout=20000 bounds=quick:_f_op_c_(is_isnt_<_<=_>_>=)_with_f_and_c_any_two_integers_of_3_digits_and_the_same_sign;thorough:_all_shapes_of_VerifC25Raw,_fields_and_literals_each_zero_or_any_integer_of_3_digits,_either_sign_(in_lists_and_ranges_all_three_of_one_sign_and_digit_count) outside=decimals_with_fractions;integers_of_other_digit_counts_(the_order_of_all_packed_numbers_is_C13)
 func VerifC25RawNum() {
-	digits := []int{0, 1, 3}
+	digits := []int{3}
 	if rt.Thorough() {
-		digits = []int{0, 1, 2, 3, 4, 5, 6}
+		digits = []int{0, 3}
 	}
 	v25check(v25num(digits), true)
 }
